@@ -259,3 +259,23 @@ func VerifNewDelay(delay time.Duration) (*VerifFilter, error) {
 
 	return &VerifFilter{Sink: s, nic: f, Del: f}, nil
 }
+
+// ---- vnet UDP socket read side (C10) ------------------------------------------------------------------
+
+type verifNoObserver struct{}
+
+func (verifNoObserver) write(Chunk) error                          { return nil }
+func (verifNoObserver) onClosed(net.Addr)                          {}
+func (verifNoObserver) determineSourceIP(locIP, dstIP net.IP) net.IP { return locIP }
+
+// VerifNewUDPConn returns a vnet UDP socket that is not attached to any Net.
+func VerifNewUDPConn() (*UDPConn, error) {
+	return newUDPConn(&net.UDPAddr{IP: net.IPv4(1, 2, 3, 4), Port: 5000}, nil, verifNoObserver{})
+}
+
+// VerifDeliver queues a datagram for the socket as Net.onInboundChunk would.
+func (c *UDPConn) VerifDeliver(p []byte) {
+	ch := newChunkUDP(&net.UDPAddr{IP: net.IPv4(5, 6, 7, 8), Port: 80}, c.locAddr)
+	ch.userData = append([]byte{}, p...)
+	c.onInboundChunk(ch)
+}
